@@ -19,7 +19,7 @@ const histRule = "each evaluation is one simulated run: a seeded history of publ
 var propInfo = map[string]*PropInfo{
 	"C01": {Level: "exploration", Rule: histRule, Assumptions: commonAssumptions, RequiredProbes: []string{"findall-nonempty", "query-served-by-index", "index-created-after-data", "index-created-before-data"}},
 	"C02": {Level: "exploration", Rule: histRule + "; twin collections receive mirrored writes and differ only in their index sets", Assumptions: commonAssumptions, RequiredProbes: []string{"query-served-by-index", "reverse-cursor", "prefix-related-indexes-coexist", "sort-on-indexed-field"}},
-	"C03": {Level: "exploration", Rule: histRule, Assumptions: commonAssumptions, RequiredProbes: []string{"bulk-affected>0", "bulk-on-indexed", "bulk-rewrites-filter-field", "bulk-rewrites-sort-field", "drop-nonempty-indexed"}},
+	"C03": {Level: "exploration", Rule: histRule + "; plus size-sweep runs (0 ... 5000 documents, varied record sizes, index sets) ending in bulk operations, mostly on real bbolt", Assumptions: commonAssumptions, RequiredProbes: []string{"bulk-affected>0", "bulk-on-indexed", "bulk-rewrites-filter-field", "bulk-rewrites-sort-field", "drop-nonempty-indexed", "bigbulk-n>=1000", "bulk-over-1000-docs"}},
 	"C06": {Level: "exploration", Rule: histRule, Assumptions: commonAssumptions, RequiredProbes: []string{"delete-absent-id", "drop-index-with-sibling", "prefix-related-indexes-coexist", "all-dropped-store-empty", "audit-index-scan"}},
 	"C08": {Level: "exploration", Rule: histRule, Assumptions: commonAssumptions, RequiredProbes: []string{"sort-with-ties", "sort-desc", "sort-on-indexed-field", "window-proper"}},
 	"C09": {Level: "exploration", Rule: histRule, Assumptions: commonAssumptions, RequiredProbes: []string{"count-via-counter", "foreach-stopped-early", "foreach-stopped-early-under-sort-node", "delete-absent-id"}},
@@ -74,9 +74,11 @@ func JobsFor(prop, tier string) []Job {
 	case "C02":
 		return histJobs("twin", 4000, 200000, 500, 20000, []string{"none", "none", "restarts", "crashes"}, stdRealFaults)
 	case "C03":
-		return histJobs("bulk", 8000, 400000, 800, 30000, stdMemFaults, stdRealFaults)
+		return append(histJobs("bulk", 8000, 400000, 800, 30000, stdMemFaults, stdRealFaults),
+			Job{Engine: "bigbulk", Backends: []string{"bbolt", "bbolt", "bbolt", "badger-disk", "badger-mem", "mem-sw-livecur", "mem-opt-snapcur"}, Quick: 260, Thorough: 6000, Params: map[string]string{"maxN": "5000"}})
 	case "C06":
-		return histJobs("audit", 8000, 400000, 800, 30000, stdMemFaults, stdRealFaults)
+		return append(histJobs("audit", 8000, 400000, 800, 30000, stdMemFaults, stdRealFaults),
+			Job{Engine: "bigbulk", Backends: []string{"bbolt", "bbolt", "badger-disk", "mem-sw-livecur"}, Quick: 100, Thorough: 3000, Params: map[string]string{"maxN": "2500"}})
 	case "C08":
 		return histJobs("sort", 8000, 400000, 800, 30000, []string{"none", "none", "restarts", "faults"}, stdRealFaults)
 	case "C09":
